@@ -37,7 +37,7 @@ RULE_TEXT = {
     "CH6": "channel wrapper fields are assigned only at construction, policy and metrics from the constructor's parameters",
     "DR1": "Dispatcher::dispatch maps enqueue Ok to Ok and enqueue Err to Err",
     "SU1": "subscriber list: push to register, retain to unsubscribe, clear at shutdown; no order-breaking or unrecognised mutator or iterator adaptor",
-    "SU2": "unsubscribe removes exactly the pointer-identical element of the creating store's list under the list lock and calls on_unsubscribe exactly on the removed element",
+    "SU2": "unsubscribe removes exactly the pointer-identical element (Arc::ptr_eq, or equality of addresses while the handle owns the Arc) of the creating store's list under the list lock and calls on_unsubscribe exactly on the removed element",
     "SU3": "after the receive loop every path to the end of the reducer thread unsubscribes every listed subscriber and clears the list once, under the list lock",
     "SU4": "direct on_notify runs with the subscriber-list lock held (delivery atomic with membership)",
     "LC1": "on_unsubscribe is called only from the unsubscribe predicate and the shutdown release",
